@@ -143,6 +143,28 @@ pub fn wildcard_child_before_anchor(it: &Item) -> bool {
     any_node(it, &|_, ch, al| (0..ch.len()).any(|j| is_wild(&ch[j]) && ((j + 1 < ch.len() && ch[j + 1].anchor) || (j + 1 == ch.len() && al))))
 }
 
+/// A repeated (`+`/`*`) wildcard, alternation or group makes the engine keep one state per way of assigning the
+/// siblings to the repetitions: on a node with many children that is exponential (a single step can take minutes and
+/// the progress callback is only consulted between steps). Such (query, tree) pairs are not executed.
+pub fn may_explode(it: &Item, xt: &XTree) -> bool {
+    fn repeated_loose(it: &Item) -> bool {
+        let rep = matches!(it.quant, query::Quant::Star | query::Quant::Plus);
+        let loose = match &it.pat {
+            query::Pat::Node { kind, .. } => matches!(kind, query::Kind::Wild | query::Kind::WildNamed | query::Kind::Super(_, None)),
+            query::Pat::Alt(_) | query::Pat::Group(_, _) => true,
+        };
+        if rep && loose {
+            return true;
+        }
+        match &it.pat {
+            query::Pat::Node { children, .. } => children.iter().any(|c| repeated_loose(&c.item)),
+            query::Pat::Alt(items) => items.iter().any(repeated_loose),
+            query::Pat::Group(children, _) => children.iter().any(|c| repeated_loose(&c.item)),
+        }
+    }
+    repeated_loose(it) && xt.nodes.iter().any(|n| n.children.len() > 12)
+}
+
 fn has_bare_supertype(it: &Item) -> bool {
     match &it.pat {
         query::Pat::Node { kind, children, .. } => matches!(kind, query::Kind::Super(_, None)) || children.iter().any(|c| has_bare_supertype(&c.item)),
@@ -248,6 +270,11 @@ impl Check for C05 {
             ctx.label(*f);
         }
         let hdr = format!("lang={lname} tree={how} text={:?}\nquery={:?}\ntree={}", show_bytes(&text.bytes, 300), q.src, xt.render(&lang.language, 120));
+        if let Ok(p) = std::env::var("VERIF_DUMP_SRC") {
+            let _ = std::fs::write(format!("{p}.txt"), &text.bytes);
+            let _ = std::fs::write(format!("{p}.scm"), &q.src);
+            let _ = std::fs::write(format!("{p}.lang"), lname);
+        }
         let l = &lang.language;
         let has_quant = q.ast.patterns.iter().any(|(it, _)| query::item_has_quantifier(it));
         // reference sets
@@ -301,6 +328,10 @@ impl Check for C05 {
             }
         };
         ctx.label("query:compiled");
+        if q.ast.patterns.iter().any(|(it, _)| may_explode(it, &xt)) {
+            ctx.discard("repeated wildcard/alternation over a node with more than 12 children");
+            return;
+        }
         // run
         let idx = node_index(&xt);
         let mut cursor = QueryCursor::new();
@@ -308,7 +339,14 @@ impl Check for C05 {
         let mut got: Vec<BTreeMap<Binding, u32>> = vec![BTreeMap::new(); q.ast.patterns.len()];
         {
             let mut ms = cursor.matches(&query, tree.root_node(), text.bytes.as_slice());
+            let mut n_matches = 0usize;
             while let Some(m) = ms.next() {
+                n_matches += 1;
+                if n_matches > 1500 {
+                    // repeated alternations over long sibling lists yield exponentially many matches: not judged
+                    ctx.discard("more than 1500 matches");
+                    return;
+                }
                 let mut b: Binding = vec![];
                 for c in m.captures {
                     let key = (c.node.id(), c.node.start_byte(), c.node.end_byte());
